@@ -4,29 +4,23 @@
    `ef_rep e xs u` (Proofs/EFRep.v) is the representation invariant: xs non-decreasing, all below
    the universe u, the high DArray correct with its ones exactly at (x_j >> l) + j, the low bit
    vector the concatenation of the l-bit low parts.  C04_build shows that building from any
-   such sequence yields a value satisfying it (the DArray layer enters through two explicit
-   premises, discharged by its own proofs). *)
+   such sequence yields a value satisfying it (the two premises about the DArray layer used in
+   Proofs/EFBuilder.v are discharged in Proofs/Integration.v; the statement is closed). *)
 From Sucds Require Import Base.Res Spec.BitSpec Spec.SeqSpec Model.BitVector Model.DArray Model.EliasFano
-  Proofs.BVAbs Proofs.IndexSpecs Proofs.EFRep Proofs.EFQueries Proofs.EFIter Proofs.EFBuilder.
+  Proofs.BVAbs Proofs.IndexSpecs Proofs.EFRep Proofs.EFQueries Proofs.EFIter Proofs.EFBuilder
+  Proofs.Integration.
 Open Scope N_scope.
 
 (* construction: every non-decreasing xs below u (u a usize) that fits the capacity m >= 1 is
    accepted entirely by new(u, m) + extend(xs); build and enable_rank give values e, e' (the
    same in every build configuration) representing xs with universe u *)
-Theorem C04_build :
-  (forall bits, lenN bits < 2 ^ 56 ->
-     exists d, (forall c, da_from_bits c bits = Ok d) /\ bits_of (da_bv d) = bits /\
-               da_s0 d = None /\ da_r9 d = None /\ (forall c, da_correct c d)) ->
-  (forall d, (forall c, da_correct c d) -> cap_ok (da_bv d) ->
-     exists d', (forall c, da_enable_select0 c d = Ok d') /\ da_bv d' = da_bv d /\
-                da_s0 d' <> None /\ da_r9 d' = da_r9 d /\ (forall c, da_correct c d')) ->
-  forall u m xs, u < W -> 1 <= m -> lenN xs <= m ->
+Theorem C04_build : forall u m xs, u < W -> 1 <= m -> lenN xs <= m ->
   m + 2 + u / 2 ^ low_len_of u m < 2 ^ 56 -> m * low_len_of u m < 2 ^ 56 ->
   nondec xs -> Forall (fun x => x < u) xs ->
   exists e e', ef_rep e xs u /\ ef_rep e' xs u /\ da_s0 (ef_high e') <> None /\
     forall c, exists b0 b, efb_new c u m = Ok (Some b0) /\ efb_extend c b0 xs = Ok (b, true) /\
                            efb_build c b = Ok e /\ ef_enable_rank c e = Ok e'.
-Proof. exact ef_build_sorted. Qed.
+Proof. exact ef_build_sorted_closed. Qed.
 Print Assumptions C04_build.
 
 (* len / universe *)
